@@ -159,7 +159,10 @@ void dataframe::columns_info::build(const record_t &r, bool header_first)
       std::fill_n(std::back_inserter(cols_), fields, column_info());
   }
 
-  assert(size() == r.size());
+  // A record with a wrong number of fields is malformed (`read_record` skips
+  // it) and cannot be used to index `cols_`.
+  if (size() != fields)
+    return;
 
   for (std::size_t field(0); field < fields; ++field)
     set_domain(field);
